@@ -106,8 +106,9 @@ pub fn generate(rng: &mut Rng, thorough: bool) -> Vec<String> {
             {
                 let prov = FsTzdbProvider::default();
                 let off = |t: i64| prov.get_named_tz_offset_nanoseconds(name, t as i128 * 1_000_000_000).map(|o| o.offset).unwrap_or(i64::MIN);
-                for y in 2038i64..=2065 {
-                    if !thorough && (y + k as i64) % 4 != 0 { continue; }
+                // (plus century years: the leap rule's exceptions, with different weekdays of January 1st)
+                for y in (2038i64..=2065).chain([2100, 2200, 2300, 2400, 2500, 2700, 2800, 3000]) {
+                    if !thorough && y < 2100 && (y + k as i64) % 4 != 0 { continue; }
                     let jan1 = temporal_rs::verif_hooks::epoch_days_from_gregorian_date(y as i32, 1, 1) as i64 * 86400;
                     let mut prev = off(jan1);
                     for d in 1..=366i64 {
@@ -128,7 +129,7 @@ pub fn generate(rng: &mut Rng, thorough: bool) -> Vec<String> {
                 }
             }
             let months: Vec<i64> = z.footer.split(",M").skip(1).filter_map(|r| r.split('.').next()?.parse().ok()).collect();
-            for y in 2038i64..=2065 {
+            for y in (2038i64..=2065).chain([2100, 2200, 2300, 2400, 2500, 2700, 2800, 3000]) {
                 for m in &months {
                     let first = temporal_rs::verif_hooks::epoch_days_from_gregorian_date(y as i32, *m as u8, 1) as i64;
                     // (the day before the month and the first days of the next one too)
